@@ -1,17 +1,17 @@
-\* necessity: the tail of a longer replaced chain is not cleared - the invariants must fail
+\* counting column: 3 keys with fixed kinds, counts up to 3, crash in every state
 CONSTANTS
-  NK = 2
+  NK = 3
   NT = 2
   Parts = {2, 3}
   MaxSlot = 9
   MaxOps = 2
   MaxLog = 1
-  RC = FALSE
+  RC = TRUE
   KeepHist = FALSE
   GenLen = 0
-  Mut = {"no_trim"}
+  Mut = {}
 SPECIFICATION Spec
 VIEW View
-CONSTRAINT Bounded
+CONSTRAINT BoundedRC
 INVARIANTS TypeOK Sound FileSound ContentOK NoBloat
 CHECK_DEADLOCK FALSE
